@@ -104,6 +104,8 @@ type listener struct {
 	ch     chan net.Conn
 	closed chan struct{}
 	once   sync.Once
+	// reported: the "closed" error has been returned once
+	reported atomic.Bool
 }
 
 func (l *listener) Accept() (net.Conn, error) {
@@ -111,6 +113,13 @@ func (l *listener) Accept() (net.Conn, error) {
 	case c := <-l.ch:
 		return c, nil
 	case <-l.closed:
+		// the real net package returns the error on every call; a caller that
+		// retries in a tight loop (rpc.Mux.accept does) would spin for ever
+		// and never let a bubble finish, so only the first call after Close
+		// returns, later ones block for good
+		if l.reported.Swap(true) {
+			select {}
+		}
 		return nil, &net.OpError{Op: "accept", Net: "tcp", Addr: l.a, Err: net.ErrClosed}
 	}
 }
